@@ -12,7 +12,8 @@ type Profile struct {
 	Cancels      bool
 	Deadlines    bool
 	Shutdown     bool // explicit shutdown steps
-	Meta         bool // metadata keys / client metadata
+	Meta         bool // metadata keys / client metadata (always)
+	MetaPct      int  // percent of scenarios with metadata keys when Meta is false
 	Spans        bool
 	Conc         []int
 	EarlyPct     int
@@ -108,9 +109,13 @@ func GenScenario(t *rapid.T, p Profile) *Scenario {
 	}
 	sc.Cfg.MaxConc = rapid.SampledFrom(conc).Draw(t, "conc")
 	sc.Cfg.Early = pct(t, "early", p.EarlyPct)
-	if p.Meta {
+	meta := p.Meta || (p.MetaPct > 0 && pct(t, "meta", p.MetaPct))
+	if meta {
 		sc.Cfg.Keys = rapid.SampledFrom(metaKeysChoices).Draw(t, "keys")
 		sc.Cfg.Limit = rapid.IntRange(0, 3).Draw(t, "limit")
+		if !p.Meta {
+			sc.Cfg.Limit = rapid.SampledFrom([]int{0, 0, 3, 2}).Draw(t, "limit2")
+		}
 	}
 	sc.Gated = pct(t, "gated", p.Gated)
 	if sc.Gated {
@@ -133,7 +138,7 @@ func GenScenario(t *rapid.T, p Profile) *Scenario {
 		} else {
 			r.Ctx = nextCtx
 			nextCtx++
-			if p.Meta {
+			if meta {
 				r.Meta = genMeta(t, i)
 			}
 			if p.Deadlines && rapid.IntRange(0, 5).Draw(t, "deadline") == 0 {
